@@ -27,7 +27,7 @@ Fixpoint span_mid (l : list ev) (last_write : bool) : bool * list ev :=
 
 (* is the log a visible projection of the action list?  Actions without a visible counterpart (graph
    construction, precondition evaluation, Cancel, socket calls, the dry Schedule) consume nothing - in
-   particular a dry Schedule admits NO executor entry.  Status writes that the agent's node-status goroutine
+   particular a dry Schedule allows NO executor entry.  Status writes that the agent's node-status goroutine
    issues after the deferred Close are tolerated at the very end (they fail on the closed writer; C08). *)
 Fixpoint accept (acts : list act) (l : list ev) : bool :=
   match acts with
